@@ -1,10 +1,11 @@
 //! Scenario crate `scn-admin`: role table, privileged-instruction twins, names, configuration keys.
 
+pub mod config;
 pub mod roles;
 
 use simcore::{CheckSpec, Part};
 
-pub const PROPERTIES: &[&str] = &["C18", "C19", "C35"];
+pub const PROPERTIES: &[&str] = &["C16", "C17", "C18", "C19", "C20", "C35"];
 
 const CHAIN_ASSUMPTIONS: &[&str] = &[
     "programs run natively on the host, not in the SBF VM: compute budget, stack/heap limits and transaction size are not modelled",
@@ -27,14 +28,32 @@ pub fn registry(property: &str) -> Option<CheckSpec> {
         "C19" => Some(CheckSpec {
             property: "C19",
             level: "fault_enumeration",
-            parts: vec![Part::new(roles::Roles, 3_000, 100_000)],
+            parts: vec![Part::new(roles::Roles, 3_000, 100_000), Part::new(config::Config, 2_000, 60_000)],
             assumptions: assumptions(&["a twin proves something only for instructions whose original landed; per-instruction coverage is listed under reach_probes (c19_twin:<instruction>)"]),
         }),
         "C35" => Some(CheckSpec {
             property: "C35",
             level: "exploration",
-            parts: vec![Part::new(roles::Roles, 4_000, 100_000)],
+            parts: vec![Part::new(roles::Roles, 4_000, 100_000), Part::new(config::Config, 2_000, 60_000)],
             assumptions: assumptions(&[]),
+        }),
+        "C16" => Some(CheckSpec {
+            property: "C16",
+            level: "exploration",
+            parts: vec![Part::new(config::Config, 4_000, 120_000)],
+            assumptions: assumptions(&["the key -> model-parameter table is transcribed from the key names and doc comments; the closed-market parameter switch is not reached at chain level (no instruction of this scenario closes a market)", "the SDK MarketModel side of this property is compared under C40"]),
+        }),
+        "C17" => Some(CheckSpec {
+            property: "C17",
+            level: "exploration",
+            parts: vec![Part::new(config::Config, 2_000, 60_000)],
+            assumptions: assumptions(&["documented defaults are transcribed from the names and doc comments of the DEFAULT_* constants, not from MarketConfig::init"]),
+        }),
+        "C20" => Some(CheckSpec {
+            property: "C20",
+            level: "exploration",
+            parts: vec![Part::new(config::Config, 4_000, 120_000)],
+            assumptions: assumptions(&["policy model: MARKET_KEEPER may set anything; MARKET_CONFIG_KEEPER only currently-updatable keys/flags; buffers all-or-nothing, authority-bound, rejected at or after expiry"]),
         }),
         _ => None,
     }
